@@ -877,3 +877,63 @@ func constArrayOf(addr ssa.Value) (map[int64]int64, bool) {
 	}
 	return tab, true
 }
+
+// outcomeSig explores fn with the symbol fixed to d, taking both sides of every branch that does not depend on the
+// symbol alone, and returns a canonical description of the branches decided by the symbol and of the values returned.
+// Two symbol values with the same signature are treated alike by fn as far as this abstraction can tell.
+func (e *bsetEngine) outcomeSig(fn *ssa.Function, isSym func(ssa.Value) bool, d int64) string {
+	st := &evalState{e: e, fn: fn, isSym: isSym, d: d, from: make([]int, len(fn.Blocks)), noLoopPhi: true}
+	for i := range st.from {
+		st.from[i] = -2
+	}
+	set := map[string]bool{}
+	visits := make([]int, len(fn.Blocks))
+	var dfs func(b *ssa.BasicBlock)
+	dfs = func(b *ssa.BasicBlock) {
+		if visits[b.Index] >= 1 {
+			return
+		}
+		visits[b.Index]++
+		defer func() { visits[b.Index]-- }()
+		switch t := b.Instrs[len(b.Instrs)-1].(type) {
+		case *ssa.Return:
+			for i, r := range t.Results {
+				st.why = ""
+				if v, ok := st.eval(r); ok {
+					set[fmt.Sprintf("ret%d=%d", i, v)] = true
+				}
+			}
+		case *ssa.If:
+			succs := b.Succs
+			st.why = ""
+			if v, ok := st.eval(t.Cond); ok {
+				if v != 0 {
+					succs = b.Succs[:1]
+				} else {
+					succs = b.Succs[1:]
+				}
+				set[fmt.Sprintf("edge%d>%d", b.Index, succs[0].Index)] = true
+			}
+			for _, s := range succs {
+				prev := st.from[s.Index]
+				st.from[s.Index] = b.Index
+				dfs(s)
+				st.from[s.Index] = prev
+			}
+		case *ssa.Jump:
+			s := b.Succs[0]
+			prev := st.from[s.Index]
+			st.from[s.Index] = b.Index
+			dfs(s)
+			st.from[s.Index] = prev
+		}
+	}
+	st.from[0] = -1
+	dfs(fn.Blocks[0])
+	var ks []string
+	for k := range set {
+		ks = append(ks, k)
+	}
+	sort.Strings(ks)
+	return strings.Join(ks, ",")
+}
